@@ -105,6 +105,8 @@ type Engine struct {
 	curIns      ssa.Instruction
 	maxLoop     int
 	hostDirs    map[string]bool
+	hostFS      bool
+	hostPkg     *ssa.Package
 	divDefs     map[[3]uint64][2]*Term
 	defOf       map[*Term]*Term
 	sparseAlloc bool
